@@ -39,3 +39,11 @@ def entry_rules(deref=False):
     ]
 
 TO_STRING = [dict(rule="R9", kind="re", pat=r"\.to_string\(\)", repl=".vx_to_string()", min=0, why="str::to_string -> VxStr::vx_to_string")]
+
+# config.rs checksum64, proved equal to the FNV-1a specification (unbounded input length)
+CHECKSUM_ITEM = dict(kind="fn", file="src/wal/config.rs", path="fn checksum64",
+    rules=[dict(rule="R8", kind="re", pat=r"for &b in data \{", repl="for i in 0..data.len() { let b = data[i];", why="for &b in slice -> indexed loop")],
+    ensures=[("C11,C01:checksum64_is_fnv1a", "ret == fnv1a(data@)")],
+    loops={0: dict(kind="for", invariant=[("", "hash == fnv1a(data@.subrange(0, i as int))")])},
+    hints=[dict(after="let b = data[i];", text="        proof { assert(data@.subrange(0, i + 1).drop_last() =~= data@.subrange(0, i as int)); }"),
+           dict(before="    hash\n}", text="    proof { assert(data@.subrange(0, data@.len() as int) =~= data@); }")])
